@@ -37,11 +37,19 @@ func NewModifier(w io.Writer) *Modifier {
 // ModifyRequest writes an HTTP request to the log stream.
 func (m *Modifier) ModifyRequest(req *http.Request) error {
 	ctx := martian.NewContext(req)
+	if ctx.SkippingLogging() {
+		return nil
+	}
+
 	return m.s.LogRequest(ctx.ID(), req)
 }
 
 // ModifyResponse writes an HTTP response to the log stream.
 func (m *Modifier) ModifyResponse(res *http.Response) error {
 	ctx := martian.NewContext(res.Request)
+	if ctx.SkippingLogging() {
+		return nil
+	}
+
 	return m.s.LogResponse(ctx.ID(), res)
 }
